@@ -175,6 +175,6 @@ SeqEquivalent == phase = "done" =>                                              
   /\ \A t \in 1..NT : reads[t] = SeqReads(t)
 GreedyParallel == phase = "done" =>                                                     \* C12
   \A a \in 1..NT : \A b \in (a + 1)..NT :
-     Stage(a) = Stage(b) => ({a, b} \in coopen \/ a \in early \/ b \in early)
+     Stage(a) = Stage(b) => ({a, b} \in coopen \/ ((a \in early) # (b \in early)))
 Termination == <>(phase = "done")                                                       \* C12
 =============================================================================
